@@ -1,5 +1,6 @@
 """Loads sidecar specs (/verif/specs/*.py) into one registry."""
 import importlib
+import re
 import os
 import pkgutil
 
@@ -70,6 +71,11 @@ class FuncSpec(object):
     self.allocates = d.get('allocates', False)
     self.trusted = d.get('trusted', False)   # contract assumed, body not verified (listed in evidence)
     self.ghost = list(d.get('ghost', ()))   # [{'after': '<stmt text>', 'do': ['<ghost stmt>', ...]}]
+    # aspects: additional contract layers on the same function ('Func@aspect' units).  An aspect unit assumes the base
+    # contract's clauses (proved by the base unit) and proves only its own; callees are taken with the same aspect.
+    self.aspect = d.get('aspect', None)
+    self.base_name = d.get('base_name', None)
+    self.aspect_clauses = set(d.get('aspect_clauses', ()))
 
 
 class ExternSpec(object):
@@ -118,6 +124,32 @@ class Registry(object):
       if k in self.functions:
         raise ValueError('duplicate function spec %s' % k)
       self.functions[k] = FuncSpec(k, d, default_file)
+      for an, ad in d.get('aspects', {}).items():
+        d2 = dict(d)
+        d2.pop('aspects')
+        d2.setdefault('path', k)
+        for key in ('requires', 'ensures', 'modifies', 'ghost', 'lemmas'):
+          d2[key] = list(d.get(key, ())) + list(ad.get(key, ()))
+        loops = dict((o, dict(l)) for o, l in d.get('loops', {}).items())
+        for o, extra in ad.get('loops', {}).items():
+          loops.setdefault(o, {})
+          loops[o]['invariant'] = list(loops[o].get('invariant', ())) + list(extra)
+        d2['loops'] = loops
+        d2['props'] = list(ad.get('props', ()))
+        d2['aspect'] = an
+        d2['base_name'] = k
+        d2['trusted'] = d.get('trusted', False)
+        clauses = list(ad.get('requires', ())) + list(ad.get('ensures', ()))
+        for extra in ad.get('loops', {}).values():
+          clauses += list(extra)
+        for g in ad.get('ghost', ()):
+          for line in g.get('do', ()):
+            m = re.match(r'^\s*prove\((.*),\s*"[^"]*"\)\s*$', line, re.S)
+            if m:
+              clauses.append(m.group(1))
+        d2['aspect_clauses'] = clauses
+        d2['aspect_ghost'] = True
+        self.functions[k + '@' + an] = FuncSpec(k + '@' + an, d2, default_file)
     for k, d in getattr(mod, 'EXTERNS', {}).items():
       if k in self.externs:
         raise ValueError('duplicate extern spec %s' % k)
